@@ -194,8 +194,13 @@ async fn apply_version(
             }
         }
         if let Some(o) = svr_op {
-            if let Err(e) = apply::apply_op(txn, &o).await {
-                warn!("Invalid operation when syncing: {e} (ignored)");
+            match apply::apply_op(txn, &o).await {
+                Ok(()) => {}
+                // An operation that does not make sense in the current state is ignored..
+                Err(Error::Database(e)) => warn!("Invalid operation when syncing: {e} (ignored)"),
+                // ..but a failure of the storage backend is not: continuing would record the
+                // version as applied although one of its operations was not.
+                Err(e) => return Err(e),
             }
             transformed_server_ops.push(o);
         }
